@@ -150,6 +150,28 @@ func VH_C11_reliable_receive_initiate_any_frame_any_state() {
 	}
 	n := verifPick("datalen", 0, 3)
 	f := &initiateFrame{frameNo: verifU32("frameNo"), tubeID: r.id, tubeType: TubeType(verifU8("type")), data: verifBytes("data", n), dataLength: uint16(n), flags: metaToFlags(verifU8("flags"))}
+	before := len(r.sendQueue)
 	_ = r.receiveInitiatePkt(f)
 	verifCover("returned")
+	// C08: the opener retransmits its REQ until it sees a RESP. As long as this
+	// end's tube is not closed - it may already have written and half-closed -
+	// every REQ must be answered, or the opener stays in "created" for ever and
+	// nothing written here is ever readable.
+	if f.flags.REQ && r.tubeState != closed {
+		verifAssert(len(r.sendQueue) == before+1, "C08: a (retransmitted) tube request is answered with a response in every state but closed")
+		if len(r.sendQueue) == before+1 {
+			raw := <-r.sendQueue
+			g := fromInitiateBytes(append(raw, make([]byte, 16)...))
+			verifAssert(verifAnd(g.flags.RESP, verifAnd(!g.flags.REQ, g.tubeID == r.id)), "C08: the answer to a tube request is a response frame for this tube")
+		}
+		verifCover("answered")
+	}
+}
+
+//verif:prop C08
+//verif:bounds as VH_C11_reliable_receive_initiate_any_frame_any_state
+//verif:cover returned;answered
+//verif:timeout 600
+func VH_C08_every_tube_request_is_answered_until_the_tube_is_closed() {
+	VH_C11_reliable_receive_initiate_any_frame_any_state()
 }
